@@ -1095,6 +1095,9 @@ func init() {
 		Run:    runC17,
 		Floors: func(c *Cov, tier string) []string {
 			var miss []string
+			if m := c.Matrix["C17_duplicate_whatever_values"]; m["burn-limits/struct/dup=true/accepted=false"] < 100 || m["burn-limits/struct/dup=false/accepted=true"] < 20 || len(m) < 10 {
+				miss = append(miss, fmt.Sprintf("duplicates whatever the values: %d cells", len(m)))
+			}
 			for _, l := range c17Lists {
 				for _, k := range []string{"exact-duplicate", "same-key-other-value", "near-duplicate"} {
 					n := 0
